@@ -2,7 +2,9 @@ package props
 
 import (
 	"encoding/json"
+
 	"fmt"
+	"github.com/xjslang/xjs/ast"
 	"os"
 	"strings"
 	"unicode/utf16"
@@ -209,6 +211,11 @@ func c08Check(src string, cfg Cfg) (kind, detail string, nseg int, accepted bool
 			}
 		}
 	}
+	// a compiler value may be used for many compilations: the map of this program must not depend on what
+	// the same compiler compiled before
+	if k, d := c08Reuse(o.Prog, cfg, co); k != "" {
+		return k, d, len(segs), true
+	}
 	seen := map[string]bool{}
 	for _, n := range co.Map.Names {
 		if seen[n] {
@@ -217,6 +224,33 @@ func c08Check(src string, cfg Cfg) (kind, detail string, nseg int, accepted bool
 		seen[n] = true
 	}
 	return "", "", len(segs), true
+}
+
+var c08Other = func() *ast.Program {
+	o := parseMode("b = a + x;\nlet z = [b, a]", Mode{})
+	return o.Prog
+}()
+
+func c08Reuse(prog *ast.Program, cfg Cfg, first CompOut) (kind, detail string) {
+	defer func() {
+		if r := recover(); r != nil {
+			kind, detail = "panic", "compiler reused: "+panicText(r)
+		}
+	}()
+	k := cfg.Build()
+	_ = k.Compile(c08Other)
+	r := k.Compile(prog)
+	if r.Code != first.Code {
+		return "reused-compiler-code", fmt.Sprintf("a compiler that compiled another program before emits %q, a fresh one %q", r.Code, first.Code)
+	}
+	if r.SourceMap == nil || r.SourceMap.Mappings != first.Map.Mappings || strings.Join(r.SourceMap.Names, "\x00") != strings.Join(first.Map.Names, "\x00") {
+		got := "<nil>"
+		if r.SourceMap != nil {
+			got = fmt.Sprintf("mappings %q names %q", r.SourceMap.Mappings, r.SourceMap.Names)
+		}
+		return "reused-compiler-map", fmt.Sprintf("a compiler that compiled another program before emits %s; a fresh one mappings %q names %q", got, first.Map.Mappings, first.Map.Names)
+	}
+	return "", ""
 }
 
 func c08Run(c *core.Ctx) {
